@@ -198,9 +198,9 @@ func (s *verifC01SvcSim) fail(prop, signature, format string, args ...any) {
 	panic(verifC01SvcViolation{prop: prop, signature: signature, msg: msg})
 }
 
-func (s *verifC01SvcSim) stuck(why string) {
-	s.logf("STUCK (inconclusive): %s", why)
-	panic(verifC01SvcStuck{why: why})
+func (s *verifC01SvcSim) stuck(category, detail string) {
+	s.logf("STUCK (inconclusive) %s: %s", category, detail)
+	panic(verifC01SvcStuck{why: category})
 }
 
 // ---- node life cycle ----
@@ -403,6 +403,13 @@ func (s *verifC01SvcSim) armDrop(target ch.NodeID, kind replication.ExchangeKind
 	s.logf("arm drop target=%d kind=%d response=%v count=%d", target, kind, response, count)
 }
 
+func (s *verifC01SvcSim) clearDrops() {
+	s.mu.Lock()
+	s.dropReq = map[verifC01SvcLinkKey]int{}
+	s.dropResp = map[verifC01SvcLinkKey]int{}
+	s.mu.Unlock()
+}
+
 // ---- observation ----
 
 type verifC01SvcStoreView struct {
@@ -562,7 +569,7 @@ func (s *verifC01SvcSim) deliver(id ch.NodeID, c int, m ch.Meta) verifC01SvcDeli
 	select {
 	case err = <-done:
 	case <-time.After(60 * time.Second):
-		s.stuck(fmt.Sprintf("ApplyMeta(%s) on node %d did not return within 60s", verifC01SvcMetaTag(m), id))
+		s.stuck("ApplyMeta did not return within 60s", fmt.Sprintf("%s on node %d", verifC01SvcMetaTag(m), id))
 	}
 	s.logf("applyMeta ch=%d node=%d %s reach=%v -> err=%v", c, id, verifC01SvcMetaTag(m), s.reachable(id), err)
 	d := verifC01SvcDelivery{err: err}
@@ -600,14 +607,13 @@ func (s *verifC01SvcSim) deliver(id ch.NodeID, c int, m ch.Meta) verifC01SvcDeli
 	// node's view (also when the quorum install behind it failed: the node is
 	// then simply not ready). Confirm it on the runtime itself, so that the
 	// judgement context below never rests on the harness's model alone.
-	after, loaded := s.probe(id, c)
-	if !loaded || after.ChannelEpoch != m.Epoch || after.LeaderEpoch != m.LeaderEpoch {
-		if err == nil {
-			s.t.Fatalf("VERIF-MACHINERY ApplyMeta(%s) on node %d returned nil but the runtime shows loaded=%v %+v", verifC01SvcMetaTag(m), id, loaded, after)
+	if err != nil {
+		after, loaded := s.probe(id, c)
+		if !loaded || after.ChannelEpoch != m.Epoch || after.LeaderEpoch != m.LeaderEpoch {
+			s.flags["metadata delivery failed before it reached the channel state (not counted as known)"] = true
+			d.refused = true
+			return d
 		}
-		s.flags["metadata delivery failed before it reached the channel state (not counted as known)"] = true
-		d.refused = true
-		return d
 	}
 	d.accepted = true
 	if !hasKnown || verifC01SvcFenceOrder(m, known) > 0 || m.RouteGeneration >= known.RouteGeneration {
@@ -721,7 +727,7 @@ func (s *verifC01SvcSim) judgeAppend(call verifC01SvcAppendCall, out verifC01Svc
 	s.logf("append ch=%d node=%d ids=%v expected=(%d,%d) known=%s -> err=%v %s", c, call.node, ids, call.expEpoch, call.expLeader,
 		verifC01SvcMetaTag(call.known), out.err, verifC01SvcItemsTag(out.items))
 	if strings.Contains(fmt.Sprint(out.err), "did not return within") {
-		s.stuck(fmt.Sprintf("AppendBatch on node %d did not return", call.node))
+		s.stuck("AppendBatch did not return within 60s", fmt.Sprintf("node %d", call.node))
 	}
 	if out.err != nil {
 		for _, id := range ids {
@@ -752,6 +758,10 @@ func (s *verifC01SvcSim) judgeAppend(call verifC01SvcAppendCall, out verifC01Svc
 		}
 		if item.MessageSeq == 0 {
 			s.fail("C01", "result-without-sequence", "ch %d: acknowledged message %d has sequence 0", c, ids[i])
+		}
+		if item.Message.MessageSeq != 0 && (item.Message.MessageSeq != item.MessageSeq || string(item.Message.Payload) != string(call.msgs[i].Payload)) {
+			s.fail("C01", "result-wrong-content", "ch %d: the acknowledgement of message %d (seq %d) echoes seq %d and a payload equal=%v to the request", c, ids[i], item.MessageSeq, item.Message.MessageSeq,
+				string(item.Message.Payload) == string(call.msgs[i].Payload))
 		}
 		if prevSeq != 0 && item.MessageSeq != prevSeq+1 {
 			s.fail("C01", "batch-not-contiguous", "ch %d: one accepted batch was acknowledged at sequences %d then %d", c, prevSeq, item.MessageSeq)
@@ -850,7 +860,7 @@ func (s *verifC01SvcSim) checkLedgerOnLeader(id ch.NodeID, c int, when string) {
 	}
 	v := s.storeView(id, c)
 	if v.err != nil {
-		s.t.Fatalf("VERIF-MACHINERY store view of node %d after %s: %v", id, when, v.err)
+		s.stuck("store of a live leader unreadable", fmt.Sprintf("node %d (%s): %v", id, when, v.err))
 	}
 	for _, a := range acks {
 		rec, ok := v.recs[a.seq]
